@@ -39,7 +39,7 @@ template <typename T>
 extern std::vector<std::vector<T>> Transpose_Lists(const std::vector<std::vector<T>>& lists)
 {
 	unsigned int N = lists.size();
-	unsigned int M = lists[0].size();
+	unsigned int M = lists.empty() ? 0 : lists[0].size();
 	for(unsigned int i = 1; i < N; i++)
 		if(lists[i].size() != M)
 		{
